@@ -850,6 +850,9 @@ def direct_connect_outputs(block=None):
     block.logic.update(nets_to_add)
     for w in wirevectors_to_remove:
         block.remove_wirevector(w)
+    if nets_to_remove:
+        # retargeting a chain of 'w' nets exposes another eligible 'w' net before the Output
+        direct_connect_outputs(block)
 
 
 def _make_tree(wire, block, curr_fanout):
